@@ -121,3 +121,11 @@ LIC_AUDITED = {
     (NS + 'Gnomonic::Reverse', 'azi1'): 'as lat1',
     (NS + 'Gnomonic::Reverse', 'M'): 'as lat1',
 }
+
+# ---------------------------------------------------------------- W1 (output totality)
+# outputs that are deliberately left unchanged on one returning path (documented in the header)
+W1_AUDITED = {
+    (NS + 'GARS::Reverse', 'prec'): 'GARS.hpp: for "INV..." lat and lon are set to NaN and prec is unchanged',
+    (NS + 'Geohash::Reverse', 'len'): 'Geohash.hpp: for "INV..."/"nan" lat and lon are set to NaN and len is unchanged',
+    (NS + 'Georef::Reverse', 'prec'): 'Georef.hpp: for "INV..." lat and lon are set to NaN and prec is unchanged',
+}
